@@ -119,8 +119,13 @@ def step (cfg : Cfg) (hash : α → Nat) (rnd : Nat) (st : State) (e : Elem α) 
     | .term => controlTargets cfg st true
     | .item a | .ts a _ => dataTargets st (cfg.strategy.index rnd (hash a))
     | .flushBatch => []
-  -- after `Terminate` the senders are gone: touching one is an index panic
-  if st.closed && !targets.isEmpty then ({ st with panicked := true }, [])
+  -- after `Terminate` the senders are gone: touching one is an index panic; the broadcast arm
+  -- indexes `self.senders[sender_idx]` before it looks at the feedback exception (end.rs:195)
+  let touched : List Nat :=
+    match e with
+    | .wm _ | .far | .term => controlTargets { cfg with feedback := none } st false
+    | _ => targets
+  if st.closed && !touched.isEmpty then ({ st with panicked := true }, [])
   else
     let st' := if e.isTerm then { st with closed := true } else st
     (st', targets.map fun i => (i, e))
